@@ -10,6 +10,7 @@ import (
 	"os"
 	"path/filepath"
 	"reflect"
+	"sort"
 	"strings"
 
 	"github.com/gkampitakis/go-snaps/match"
@@ -271,6 +272,98 @@ func checkC15(c *vkit.Ctx) {
 			c.Guard(i, func() { c15YAMLSnaps(c, r, i) })
 		}
 	}
+	nd := c.N(1500, 40000)
+	for j := 0; j < nd; j++ {
+		i := 60000000 + j
+		if !c.Mine(i) {
+			continue
+		}
+		c.Guard(i, func() { c15DollarMember(c, j) })
+	}
+}
+
+// c15DollarMember: JSON documents that really have a member named `$` (JSON-schema and
+// MongoDB style documents do), holding members with the same names as the root. A JSON path
+// is a gjson path: `$.id` is member `id` of member `$` and nothing else - the YAML spelling
+// of the root has no meaning here.
+func c15DollarMember(c *vkit.Ctx, j int) {
+	r := c.Rand("dollar", j)
+	keys := []string{"id", "name", "meta", "n"}
+	root := map[string]any{}
+	inner := map[string]any{}
+	for _, k := range keys {
+		if r.IntN(3) != 0 {
+			root[k] = []any{"stable-" + k, float64(r.IntN(100)), true, map[string]any{"x": 1.0}}[r.IntN(4)]
+		}
+		if r.IntN(3) != 0 {
+			inner[k] = []any{"attr-" + k, float64(r.IntN(100)), false, []any{1.0}}[r.IntN(4)]
+		}
+	}
+	if len(inner) == 0 {
+		inner["id"] = "attr-id"
+	}
+	root["$"] = inner
+	var ik []string
+	for k := range inner {
+		ik = append(ik, k)
+	}
+	sort.Strings(ik)
+	k := ik[r.IntN(len(ik))]
+	doc, _ := json.Marshal(root)
+	path := "$." + k
+	var m match.JSONMatcher
+	kind := []string{"any", "type", "custom"}[r.IntN(3)]
+	var want any = "<masked>"
+	switch kind {
+	case "any":
+		m = match.Any(path).Placeholder("<masked>")
+	case "custom":
+		m = match.Custom(path, func(v any) (any, error) {
+			if !reflect.DeepEqual(v, inner[k]) {
+				return nil, fmt.Errorf("callback got %v, the value at %s is %v", v, path, inner[k])
+			}
+			return "<masked>", nil
+		})
+	default:
+		switch inner[k].(type) {
+		case string:
+			m, want = match.Type[string](path), "<Type:string>"
+		case float64:
+			m, want = match.Type[float64](path), "<Type:float64>"
+		case bool:
+			m, want = match.Type[bool](path), "<Type:bool>"
+		default:
+			m, want = match.Type[[]any](path), "<Type:[]interface {}>"
+		}
+	}
+	in := map[string]any{"part": "member named $", "document": string(doc), "path": path, "matcher": kind}
+	out, errs := m.JSON(append([]byte(nil), doc...))
+	if len(errs) > 0 {
+		c.Violate("matcher-error-on-existing-path", "", fmt.Sprintf("%s on %s: %v", kind, path, errs[0].Reason), in)
+		return
+	}
+	var got map[string]any
+	if err := json.Unmarshal(out, &got); err != nil {
+		c.Violate("matcher-output-not-json", "", err.Error()+": "+vkit.Q(string(out)), in)
+		return
+	}
+	wantDoc := map[string]any{}
+	for rk, rv := range root {
+		wantDoc[rk] = rv
+	}
+	wi := map[string]any{}
+	for kk, vv := range inner {
+		wi[kk] = vv
+	}
+	wi[k] = want
+	wantDoc["$"] = wi
+	if !reflect.DeepEqual(got, wantDoc) {
+		wb, _ := json.Marshal(wantDoc)
+		c.Violate("matcher-changed-other-than-target", "", fmt.Sprintf("%s(%q): output %s, expected %s", kind, path, vkit.Q(string(out)), vkit.Q(string(wb))), in)
+		return
+	}
+	c.Count("documents_with_a_member_named_dollar", 1)
+	c.Case(vkit.Hash("dollar", string(doc), path, kind), true)
 }
 
 func pickPath(r *rand.Rand, d *vkit.JNode, ok func(vkit.JPath) bool) (vkit.JPath, bool) {
